@@ -29,7 +29,7 @@ def one(name, tier, seeds):
     prop = meta.get("property") or name.split("-")[0]
     lead = meta.get("validated_by_lead", {})
     detected = lead.get("detected", "") if isinstance(lead, dict) else ""
-    if "not judged" in detected.lower() or "left so on purpose" in detected.lower() or meta.get("not_judged"):
+    if detected.lower().startswith("not judged") or "left so on purpose" in detected.lower() or meta.get("not_judged"):
         return name, "not judged (by design)", "", ""
     checks = []
     for m in re.finditer(r"\./check (C\d\d)", detected):
@@ -43,13 +43,16 @@ def one(name, tier, seeds):
     heads = ["HEAD"]
     rh = str(lead.get("repo_head", "")).split()[0] if isinstance(lead, dict) and lead.get("repo_head") else ""
     if rh:
-        heads.append(rh)
+        heads += [rh, rh + "^"]  # a seed stored right after the fix it led to was validated on the commit before
     applied_at = None
     for h in heads:
         rc, out = sh(["git", "-C", REPO, "worktree", "add", "-q", "--detach", wt, h])
         if rc != 0:
             continue
         rc, out = sh(["git", "apply", os.path.join(d, "patch.diff")], cwd=wt)
+        if rc != 0 and os.path.exists(os.path.join(d, "patch_on_hooked_head.diff")):
+            # the same change merged by hand onto a tree that already carries a hook in the same lines
+            rc, out = sh(["git", "apply", os.path.join(d, "patch_on_hooked_head.diff")], cwd=wt)
         if rc == 0:
             applied_at = h
             break
